@@ -143,6 +143,15 @@ def gen_cases(ctx, n, nframes, trace_every):
         noise_seed = r.next() & 0xFFFFFFFF
         trace = trace_every > 0 and (k % trace_every == 0)
         cases.append(make_case(k, par, segs, prev, tx_seed, noise_seed, nframes, trace))
+    # a short stretch of exact silence right after power-on, then the transmission at everyday levels (the sync-word objects have
+    # seen nothing but zeros: whatever they keep between triggers is whatever they were constructed with)
+    for j, (nz, gain) in enumerate([(4000, 1.0), (4000, 0.5), (2000, 1.0), (6000, 0.5), (4000, 2.0), (1000, 0.7)][:(6 if n >= 40 else 4)]):
+        k = n + j
+        r = rng.fork(f"short-silence{j}")
+        par = {"tau": r.below(10) / 10.0, "ppm": 0, "gain": gain, "dc": 0.0, "snr": None, "history": "short-zeros0"}
+        segs, prev = [f"seg zeros {nz}"], []
+        par["lead_segments"] = segs
+        cases.append(make_case(k, par, segs, prev, r.fork("tx"), r.next() & 0xFFFFFFFF, nframes, False))
     return cases
 
 
